@@ -148,7 +148,8 @@ def rewrite_files(
     """Rewrite project files, updating each with the new version."""
     fobj: typ.IO[str]
 
-    for file_data in iter_rewritten(file_patterns, new_vinfo):
+    # validate all files before writing any of them
+    for file_data in list(iter_rewritten(file_patterns, new_vinfo)):
         new_content = file_data.line_sep.join(file_data.new_lines)
         with io.open(file_data.path, mode="wt", newline='', encoding="utf-8") as fobj:
             fobj.write(new_content)
